@@ -663,3 +663,24 @@ Qed.
 Definition demo_progs : list (prog est eresp) :=
   [prog_of (RSet [(0, true); (2, true)]); prog_of (RGet [0; 1; 2]); prog_of (RRep [false; true; false])].
 Definition demo_run := run_to_end [2; 0; 1; 2; 2; 0; 1; 1; 0; 2; 0] (init true demo_progs ([false; false; false], [false; false; false])).
+
+(* ---------- one mutex per multiplexer is not one mutex per state ----------
+   A handler registered on TWO multiplexers runs under two different mutexes; from the point of view of the state it
+   touches, the thread holding the other mux's mutex is not excluded.  Model: one thread wraps its read-modify-write
+   in the mutex, the other does not take THIS mutex. *)
+Definition two_mutex_cfg : cfg nat nat :=
+  {| sh := 0; lock := false; thr := [locked true rmw_prog; unlocked rmw_prog] |}.
+Definition two_mutex_run := run_to_end [0; 0; 1; 0; 0; 1] two_mutex_cfg.
+
+Theorem two_mutexes_refuted : exists tr c,
+  exec two_mutex_cfg tr c /\ all_done c = true /\
+  forall ord, Permutation ord [0; 1] -> sh c <> fst (serial [rmw_prog; rmw_prog] ord 0).
+Proof.
+  exists (snd two_mutex_run), (fst two_mutex_run).
+  split.
+  { apply run_to_end_sound with (sch := [0; 0; 1; 0; 0; 1]). apply surjective_pairing. }
+  split.
+  { vm_compute. reflexivity. }
+  intros ord Hp. apply Permutation_sym, Permutation_length_2_inv in Hp.
+  destruct Hp as [-> | ->]; vm_compute; discriminate.
+Qed.
